@@ -8,7 +8,7 @@ LEVEL = "exploration"
 RULE = ("cross product noise mode x constraint family (incl. measure-zero hyperplane and thin band: every ES candidate infeasible / "
         "empty search set) x geometry (log x constraints) x budget (incl. N_init-1, N_init, tiny, 1, 2) x max_iter 1,2 x "
         "noise_final_samples 0,1 x repeated-point pressure under specified noise (tight boxes, coarse tol_mesh) x constant/plateau "
-        "targets x one-variable constrained problems with a coarse final mesh (local GP refitted on two training points) x many seeds; plus ONE documented option at a time moved off its default (every boolean flipped, positive numbers halved / doubled) on short problems in all four noise modes (quick: every boolean / explicit value in the deterministic and one noisy mode + every numeric variation in one mode; thorough: all x all modes). Refuting event: any exception escaping the constructor of a spec-valid problem or optimize() that was "
+        "targets x one-variable constrained problems with a coarse final mesh (local GP refitted on two training points) x many seeds; plus ONE documented option at a time moved off its default (every boolean flipped, positive numbers halved / doubled) on short problems in all four noise modes (quick: every boolean / explicit value in the deterministic and one noisy mode + every numeric variation in one mode; thorough: all x all modes; each variation once more on a NOISY problem under a measure-zero / thin-band constraint, where the rare paths - every ES candidate infeasible, empty search set - are taken). Refuting event: any exception escaping the constructor of a spec-valid problem or optimize() that was "
         "not raised by the user's callables; classified by (type, innermost pybads file:function). Non-trivial/distinct = distinct "
         "(mode, constraint, geometry, landscape, rare-path flags) where rare-path flags are MEASURED at the seams (empty ES "
         "generation, empty search set, duplicate merge, second GP fit, local refit)")
@@ -114,7 +114,7 @@ def cases(tier, seed):
             # empty (what the library's own error message recommends)
             spec["options"].pop("uncertainty_handling", None)
         out.append({"spec": spec, "fam": fam})
-    out += option_variation_cases(tier, seed)
+    out += option_variation_cases(tier, seed, hard=True)
     # deterministic probes of the two OPEN known findings of this property, so that every run reports them
     for k, extra in enumerate(({"max_fun_evals": 1}, {"hedge_gamma": 0})):
         rng = gen.rng_for(seed, "C09", 900000 + k)
@@ -123,7 +123,7 @@ def cases(tier, seed):
     return out
 
 
-def option_variation_cases(tier, seed, Dchoices=(1, 2, 3), lands=("quad", "l1", "rosen"), budgets=(50, 70)):
+def option_variation_cases(tier, seed, Dchoices=(1, 2, 3), lands=("quad", "l1", "rosen"), budgets=(50, 70), hard=False):
     """One documented option at a time moved off its default - every boolean flipped, every positive number halved / doubled
     (integers stay >= 1, fractions stay inside their range) - on short deterministic and noisy problems."""
     import os
@@ -178,7 +178,28 @@ def option_variation_cases(tier, seed, Dchoices=(1, 2, 3), lands=("quad", "l1", 
             spec = gen.make_spec(rng, D=D, geom=str(rng.choice(["lin", "log", "unb"])), x0mode="in", land=str(rng.choice(list(lands))),
                                  mode=mode, options={k: val}, max_fun_evals=int(rng.choice(list(budgets))))
             out.append({"spec": spec, "fam": "option-variation", "option": [k, how]})
+        if hard:
+            # the same variation on a problem that takes the RARE paths: a noisy target under a measure-zero (hyperplane) or
+            # thin-band constraint - every ES candidate infeasible, empty search sets
+            rng = gen.rng_for(seed, "C09", 800000 + j)
+            D = int(rng.choice([2, 3]))
+            v = reference_options(paths, D, {})[k]
+            spec = gen.make_spec(rng, D=D, geom=str(rng.choice(["lin", "unb"])), x0mode="centre", land="quad", mode=["auto", "declared", "he"][(j + seed) % 3],
+                                 cons=str(rng.choice(["hyperplane", "band"], p=[0.7, 0.3])), options={k: _variation_value(k, how, _, v)}, max_fun_evals=60)
+            out.append({"spec": spec, "fam": "option-variation", "option": [k, how], "hard": True})
     return out
+
+
+def _variation_value(k, how, explicit, v):
+    if how == "set":
+        return explicit
+    if how == "flip":
+        return not bool(v)
+    if isinstance(v, (int, np.integer)) or float(v) == int(v):
+        val = max(1, int(v) // 2) if how == "half" else int(v) * 2
+        return int(min(val, FRACTIONS[k])) if k in FRACTIONS else val
+    val = float(v) * (0.5 if how == "half" else 2.0)
+    return min(val, FRACTIONS[k]) if k in FRACTIONS else val
 
 
 def run_case(case):
